@@ -11,7 +11,7 @@ EXPLANATION = (
     "user-defined controllers are written."
 )
 BOUNDS = {"quick": {"depth": "1 and 2", "n": "0, 1, 2, 3, 27 (shape)", "mapping targets": "one per controller kind of the embedded Amplifier/Generator/MultiSynth (range, negative-minimum range, compact, enum, bool)",
-                    "labels": "<= 2 free code points at index 0 and n-1", "embedded project": "header integers, module controllers, one pattern cell"},
+                    "labels": "<= 2 free code points at index 0 and n-1", "embedded project": "header integers, module controllers, one pattern cell", "stored values": "out-of-range word (depth 1, 2), last two of 96, and n = 4 with an UNASSIGNED slot followed by negative-minimum targets (symbolic raw words, written words decoded by REF-DEC)"},
           "thorough": {"depth": "1, 2, 3", "n": "0..4, 27, 95, 96"}}
 OUTSIDE = ["symbolic label text in the in-project and nested contexts (MetaModule.__setattr__ slugifies all labels through third-party code on every attribute assignment; labels are symbolic in the stand-alone context, concrete non-ASCII elsewhere)", "depth > 3", "assigning user-defined controllers through setattr (propagation into the embedded module is behaviour, not persistence)", "more than two labels per module"]
 ASSUMPTIONS = ["user-defined values are those the library derives from the mapped controllers (update_user_defined_controllers), as the loader itself does"]
